@@ -307,6 +307,10 @@ def toI64 (n : Nat) : Int := ((n : Int) + two63) % two64 - two63
 /-- `convertPinType`: shift right until 1, counting; 0 ↦ BadType (enum 0) -/
 def convertPinType (t : Nat) : Nat := if t == 0 then 0 else Nat.log2 t
 
+/-- token of cid.Undef; `reference = some undefCid` is a non-nil pointer to it: its bytes are empty, exactly as
+    for a nil reference, and `cid.Cast` of empty bytes fails, so it is read back as nil -/
+def undefCid : String := "c-"
+
 /-- the pb.PinOptions message -/
 structure PbOptions where
   rmin : Int
@@ -333,7 +337,7 @@ structure PbPin where
     the expiry is written in whole seconds, and only for a pin that expires) -/
 def protoEncode (p : Pin) : PbPin :=
   { cid := p.cid, type := convertPinType p.type, allocs := p.allocs, maxDepth := wrap32 p.maxDepth,
-    reference := p.reference,
+    reference := if p.reference == some undefCid then none else p.reference,
     opts := { rmin := wrap32 p.opts.rmin, rmax := wrap32 p.opts.rmax, name := p.opts.name,
               shardSize := p.opts.shardSize, metadata := p.opts.metadata, pinUpdate := p.opts.pinUpdate,
               expireAt := if p.opts.expireAt.noExpiry then 0 else toU64 p.opts.expireAt.sec,
@@ -356,7 +360,7 @@ def truncExpiry (t : Time) : Time := if t.noExpiry || t.sec == 0 then Time.zero 
 
 /-- what the protobuf form keeps of a pin -/
 def lossyProto (p : Pin) : Pin :=
-  { p with opts := { p.opts with userAllocs := [], expireAt := truncExpiry p.opts.expireAt, mode := toPinMode p.maxDepth } }
+  { p with reference := (if p.reference == some undefCid then none else p.reference), opts := { p.opts with userAllocs := [], expireAt := truncExpiry p.opts.expireAt, mode := toPinMode p.maxDepth } }
 
 def pinTypes : List Nat := [1, 2, 4, 8, 16]
 def inInt32 (i : Int) : Bool := decide (-two31 ≤ i) && decide (i < two31)
@@ -532,42 +536,56 @@ def leafName : Ty → String
   | .leaf n _ _ _ _ _ => n
   | _ => ""
 
-/-- prediction for one dumped field: `none` = the decoder returns an error -/
-def predictField (js : Bool) (f : Field) (tok : String) : Option String :=
+def isPtr : Ty → Bool
+  | .ptr _ => true
+  | _ => false
+
+/-- prediction for one dumped field: an error (with its reason) = the decoder returns an error -/
+def predictFieldE (js : Bool) (f : Field) (tok : String) : Except String String :=
   let elems := elemToks f.ty tok
   let lt := peel f.ty
   -- a non-empty value of an undecodable static type
-  if !decodable js f.ty && !elems.isEmpty then none
-  -- a rejected zero value that is written (omitempty only drops it when it is the field itself)
-  else if elems.any (zeroRejected js (leafName lt)) && !(direct f.ty && f.omit js) then none
+  if !decodable js f.ty && !elems.isEmpty then .error "undecodable"
+  -- a rejected zero value that is written: omitempty only drops it when it is the field itself, and
+  -- a non-nil pointer is never "empty" (the first shard's `Reference = &cid.Undef`)
+  else if elems.any (zeroRejected js (leafName lt)) && !(direct f.ty && !isPtr f.ty && f.omit js) then
+    .error (if leafName lt == "peer.ID" then "zero-peer" else "zero-cid")
+  -- JSON writes a pointer to cid.Undef as null, which decodes as a nil pointer
+  else if js && isPtr f.ty && leafName lt == "go-cid.Cid" && tok == "c-" then .ok "nil"
   else if js && direct f.ty && leafName lt == "api.TrackerStatus" then
     match tok.toNat? with
-    | some st => some (toString (statusRoundtrip st))
-    | none => some tok
+    | some st => .ok (toString (statusRoundtrip st))
+    | none => .ok tok
   else if js && direct f.ty && leafName lt == "api.PinMode" then
     match tok.toInt? with
-    | some m => some (toString (modeFromString (modeString m)))
-    | none => some tok
-  else some tok
+    | some m => .ok (toString (modeFromString (modeString m)))
+    | none => .ok tok
+  else .ok tok
+
+def predictField (js : Bool) (f : Field) (tok : String) : Option String := (predictFieldE js f tok).toOption
 
 /-- auxiliary dump entries (`X#` lengths/keys, `X?` presence) are not fields -/
 def isAux (path : String) : Bool := path.endsWith "#" || path.endsWith "?"
 
-/-- encode-then-decode of a dumped record under json / msgpack, read off the schema table -/
-def predictTagged (tbl : Table) (js : Bool) (rec : String) (kvs : KVs) : Res KVs :=
-  let step := fun (acc : Option KVs) (kv : String × String) =>
+/-- encode-then-decode of a dumped record under json / msgpack, read off the schema table; an error names
+    the first field the decoder stumbles over and why -/
+def predictTaggedE (tbl : Table) (js : Bool) (rec : String) (kvs : KVs) : Except String KVs :=
+  let step := fun (acc : Except String KVs) (kv : String × String) =>
     match acc with
-    | none => none
-    | some out =>
-      if isAux kv.1 then some (out ++ [kv]) else
+    | .error e => .error e
+    | .ok out =>
+      if isAux kv.1 then .ok (out ++ [kv]) else
       match resolve tbl 8 rec (pathSegs kv.1) with
-      | none => some (out ++ [kv])
-      | some f => match predictField js f kv.2 with
-        | none => none
-        | some t => some (out ++ [(kv.1, t)])
-  match kvs.foldl step (some []) with
-  | some out => .ok out
-  | none => .decErr
+      | none => .ok (out ++ [kv])
+      | some f => match predictFieldE js f kv.2 with
+        | .error why => .error (kv.1 ++ ":" ++ why)
+        | .ok t => .ok (out ++ [(kv.1, t)])
+  kvs.foldl step (.ok [])
+
+def predictTagged (tbl : Table) (js : Bool) (rec : String) (kvs : KVs) : Res KVs :=
+  match predictTaggedE tbl js rec kvs with
+  | .ok out => .ok out
+  | .error _ => .decErr
 
 /-! ## dumps of typed pins (the harness's `path=token` lists) -/
 
